@@ -8,6 +8,13 @@
 //   ebool <w> <be> <nmod> <deg> <kind> <L> <tree:L ints> <nh> <nh*N words>         =>  <mode> <0|1>
 //   pbool <w> <be> <nmod> <deg> <h> <nh> <words>                                   =>  <0|1>
 //   ppeq / ppne <w> <be> <nmod> <deg> <ha> <hb> <nh> <words>                       =>  <0|1>
+//   bsweep <w> <be> <nmod> <deg> <fam> <pat> <t> <L> <tree:L ints> <nh> <nh*N words> <N alt words> <np> <np positions>
+//                                                                                  =>  <mode> <np times 0|1>
+//     a batch of np boolean conversions on stores that differ from the printed one only in the row of handle <t>:
+//     pat 0 ("differ in one"): row := printed row with element k replaced by alt[k];
+//     pat 1 ("equal in one"):  row := alt with element k replaced by the printed row's element k;   k = each position.
+//     fam 0: bool(<tree>) (as ebool);  fam 1: poly_p ==/!= poly_p, tree = {6|7, 0,ha, 0,hb} (as ppeq/ppne, mode printed 0);
+//     fam 2: poly -> bool, tree = {0,h} (as pbool, mode printed 0).
 // tree prefix code: 0 h leaf | 1 add | 2 sub | 3 mul | 4 shoup3 | 5 compute_shoup | 6 eq | 7 neq | 8 shoup(x,q) call
 // <mode> is `decltype(expr)::simd_mode::mode` as the compiler resolved it (0 serial, 1 sse, 2 avx2).
 #pragma once
@@ -33,6 +40,9 @@ template <class T> inline T rsub(size_t cm, T x, T y) { T p = modp<T>(cm); retur
 template <class T> inline T rmul(size_t cm, T x, T y) { return (T)(((u128)x * y) % modp<T>(cm)); }
 template <class T> inline T rquot(size_t cm, T y) { T p = modp<T>(cm); return (T)((((u128)(y % p)) << bits<T>()) / p); }
 
+// one boolean conversion of the generated code, as the runtime prints it (see the protocol above)
+struct BoolCase { int fam; const int* tree; int tlen; int mode; int ha; int hb; };
+
 template <class T, size_t D, size_t M, size_t NV, size_t NQ>
 struct Env {
   using P = nfl::poly<T, D, M>;
@@ -45,6 +55,8 @@ struct Env {
   std::vector<T> before;
   const int* tree = nullptr; int tlen = 0; int dest = 0; int form = 0;
   unsigned long lines = 0;
+  int pb_tree[2] = {0, 0};
+  bool light = false;   // the additional degrees: few single-evaluation lines per shape, the positions are covered by sweeps
 
   explicit Env(uint64_t seed) : rng(seed) {
     for (size_t i = 0; i < NV; i++) v[i] = (T)0;
@@ -126,26 +138,88 @@ struct Env {
     head(op); printf(" %d %d %zu", ha, hb, NH); put_words(s); printf(" => %d\n", r ? 1 : 0); lines++;
   }
 
-  // positions visited by the one-position patterns: all of them (N is small), or a spread when VERIF_EXPR_POS is set
+  void emit_case(const BoolCase& bc, bool r) {
+    if (bc.fam == 0) emit_bool(bc.tree, bc.tlen, 0, bc.mode, r);
+    else if (bc.fam == 1) emit_pp(bc.tree[0] == 6 ? "ppeq" : "ppne", bc.ha, bc.hb, r);
+    else emit_pbool(bc.ha, r);
+  }
+
+  // Boundary-directed positions (flat indices cm*D+i): in every modulus row the first two and last two coefficients and,
+  // for each block size B in {2,4,...,128}, the start of the last (possibly partial) block of the row, its neighbours,
+  // and the end of the first block: where a blocked / unrolled / vectorised scan changes its behaviour.
+  std::vector<size_t> boundary_positions() {
+    std::vector<char> mark(N, 0);
+    for (size_t cm = 0; cm < M; cm++) {
+      auto put = [&](long i) { if (i >= 0 && (size_t)i < D) mark[cm * D + (size_t)i] = 1; };
+      put(0); put(1); put((long)D - 1); put((long)D - 2);
+      for (size_t B = 2; B <= 128; B *= 2) {
+        if (B >= D) { put((long)D / 2); continue; }
+        long tail = (long)((D - 1) / B * B);      // first index of the last block (a full one when B divides D)
+        put(tail - 1); put(tail); put(tail + 1); put((long)B - 1); put((long)B);
+        if (D % B) { long t2 = (long)(D / B * B); put(t2 - 1); put(t2); }
+      }
+    }
+    std::vector<size_t> r;
+    for (size_t k = 0; k < N; k++) if (mark[k]) r.push_back(k);
+    return r;
+  }
+  std::vector<size_t> all_positions() { std::vector<size_t> r; for (size_t k = 0; k < N; k++) r.push_back(k); return r; }
+
+  // positions visited by the one-position single-evaluation patterns: all of them (N is small), or a spread when
+  // VERIF_EXPR_POS is set: first, last, the modulus-row boundary, the start of the last 64-block of the last row
+  // (the tail of a blocked scan), then random ones
   std::vector<size_t> positions() {
     std::vector<size_t> r;
     size_t lim = (size_t)env_u64("VERIF_EXPR_POS", 0);
-    if (lim == 0 || lim >= N) { for (size_t k = 0; k < N; k++) r.push_back(k); return r; }
-    r.push_back(0); r.push_back(N - 1); r.push_back(D - 1); if (M > 1) r.push_back(D);
+    if (light) lim = 6;
+    if (lim == 0 || lim >= N) return all_positions();
+    auto put = [&](size_t k) { for (size_t x : r) if (x == k) return; if (r.size() < lim) r.push_back(k); };
+    put(N - 1); put(0); put(D - 1); if (M > 1) put(D);
+    if (D > 64) { size_t tl = (D - 1) / 64 * 64; put((M - 1) * D + tl); put(tl - 1); }
     while (r.size() < lim) r.push_back(rng.below(N));
     return r;
   }
 
+  T bump(size_t cm, T x) { T p = modp<T>(cm); return (T)((x + 1 + rng.below(p - 1)) % p); }
+
+  // A batch of conversions on stores differing from the current one in one row only (line `bsweep`, see the top).
+  // The current row of `t` is A; B differs from A in every residue.  `ev` performs the conversion on the live objects.
+  void sweep(int t, const BoolCase& bc, int pat, const std::vector<size_t>& pos, const std::function<bool()>& ev,
+             const std::vector<T>* alt = nullptr) {
+    if (pos.empty()) return;
+    T* r = row(t);
+    std::vector<T> A(r, r + N), B(N);
+    for (size_t j = 0; j < N; j++) B[j] = alt ? (*alt)[j] : bump(j / D, A[j]);
+    std::vector<T> s; snapshot(s);
+    std::vector<char> res;
+    if (pat == 1) for (size_t j = 0; j < N; j++) r[j] = B[j];
+    for (size_t k : pos) {
+      T keep = r[k];
+      r[k] = (pat == 0) ? B[k] : A[k];
+      res.push_back(ev() ? 1 : 0);
+      r[k] = keep;
+    }
+    for (size_t j = 0; j < N; j++) r[j] = A[j];
+    tree = bc.tree; tlen = bc.tlen;
+    head("bsweep"); printf(" %d %d %d", bc.fam, pat, t); put_tree(); printf(" %zu", NH); put_words(s); put_words(B);
+    printf(" %zu", pos.size()); for (size_t k : pos) printf(" %zu", k);
+    printf(" => %d", bc.fam == 0 ? bc.mode : 0);
+    for (char c : res) printf(" %d", (int)c);
+    printf("\n"); lines++;
+  }
+
   // Comparison / zero-test patterns.  Handle `t` is a leaf whose value the runtime controls:
   //   target(cm,i) is the value of `t` that makes the two sides equal (resp. the expression zero) at (cm,i).
-  // Patterns: equal everywhere; differing in exactly one residue at position k (every k); equal in exactly one
-  // residue; random unrelated.  `prep` re-establishes precomputed quotients after the operands are filled.
+  // Patterns: equal everywhere; differing in exactly one residue at position k; equal in exactly one
+  // residue; random unrelated; then the two one-position patterns at EVERY position as sweeps (`all_pos`) or at the
+  // boundary-directed positions.  `prep` re-establishes precomputed quotients after the operands are filled.
   // (std::function instead of template parameters: one instantiation of the body per Env, shorter compile times)
-  void patterns(int t, std::function<T(size_t, size_t)> target, std::function<void()> prep, std::function<void(const char*)> run) {
-    auto bump = [&](size_t cm, T x) { T p = modp<T>(cm); return (T)((x + 1 + rng.below(p - 1)) % p); };
+  void patterns(int t, std::function<T(size_t, size_t)> target, std::function<void()> prep, const BoolCase& bc,
+                std::function<bool()> ev, bool all_pos) {
     auto base = [&](int rep) { fill(rep); prep(); };
+    auto run = [&](const char*) { emit_case(bc, ev()); };
     // equal pairs
-    for (int rep = 0; rep < 3; rep++) { base(rep); set_val(t, target); run("equal"); }
+    for (int rep = 0; rep < (light ? 2 : 3); rep++) { base(rep); set_val(t, target); run("equal"); }
     // differ in exactly one residue
     for (size_t k : positions()) {
       base(0); set_val(t, target);
@@ -156,7 +230,7 @@ struct Env {
     }
     // differ in exactly one BIT of one residue, every bit position (a comparison or reduction that looks only at part
     // of the word - low half, high half, one byte - is blind to some of these)
-    for (int b = 0; b < (int)(8 * sizeof(T)) - 2; b++) {
+    for (int b = 0; b < (int)(8 * sizeof(T)) - 2 && !light; b++) {
       base(b % 3); set_val(t, target);
       size_t k = (size_t)(b * 7 + 3) % N, cm = k / D, i = k % D;
       T x = at(t, cm, i);
@@ -165,13 +239,28 @@ struct Env {
       set(t, cm, i, y); run("diffbit");
     }
     // equal in exactly one residue
-    for (size_t k : positions()) {
-      base(0); set_val(t, target);
-      for (size_t j = 0; j < N; j++) if (j != k) { size_t cm = j / D, i = j % D; set(t, cm, i, bump(cm, at(t, cm, i))); }
-      run("same1");
-    }
+    { std::vector<size_t> ps = positions(); if (light && ps.size() > 2) ps.resize(2);
+      for (size_t k : ps) {
+        base(0); set_val(t, target);
+        for (size_t j = 0; j < N; j++) if (j != k) { size_t cm = j / D, i = j % D; set(t, cm, i, bump(cm, at(t, cm, i))); }
+        run("same1");
+      } }
     // unrelated
-    for (int rep = 0; rep < 2; rep++) { base(0); for (size_t cm = 0; cm < M; cm++) for (size_t i = 0; i < D; i++) set(t, cm, i, rnd_res(cm)); run("random"); }
+    for (int rep = 0; rep < (light ? 1 : 2); rep++) { base(0); for (size_t cm = 0; cm < M; cm++) for (size_t i = 0; i < D; i++) set(t, cm, i, rnd_res(cm)); run("random"); }
+    // every position (resp. the boundary-directed ones): differ in one / equal in one
+    std::vector<size_t> ps = (all_pos || N <= 160) ? all_positions() : boundary_positions();
+    base(0); set_val(t, target); sweep(t, bc, 0, ps, ev);
+    base(2); set_val(t, target); sweep(t, bc, 1, ps, ev);
+  }
+
+  // poly -> bool with a single non-zero residue at every position (values 1, p-1, random non-zero in turn)
+  void sweep_pbool(int h, const std::function<bool()>& ev) {
+    fill_zero();
+    std::vector<T> alt(N);
+    for (size_t j = 0; j < N; j++) { T p = modp<T>(j / D); alt[j] = (j % 3 == 0) ? (T)1 : (j % 3 == 1) ? (T)(p - 1) : (T)(1 + rng.below(p - 1)); }
+    pb_tree[0] = 0; pb_tree[1] = h;
+    BoolCase bc{2, pb_tree, 2, 0, h, h};
+    sweep(h, bc, 0, all_positions(), ev, &alt);
   }
 };
 
